@@ -74,7 +74,13 @@ def gen_case(R, index, tier):
         return {"stratum": "value", "a": a, "u": u1, "text": _spell(R, a, u1), "ctx": ctx}
     if k < 0.93:
         return {"stratum": "binary", "a": a, "u1": u1, "b": b, "u2": u2, "right_as": R.choice(["Length", "Length", "str", "number"]), "ppi": R.choice([72.0, 96.0, 254.0])}
-    return {"stratum": "conversion", "a": a, "u": R.choice(["", "px", "pt", "pc", "in", "cm", "mm"]), "ppi": R.choice([72.0, 96.0, 254.0, 1000.0])}
+    case = {"stratum": "conversion", "a": a, "u": R.choice(["", "px", "pt", "pc", "in", "cm", "mm"]), "ppi": R.choice([72.0, 96.0, 254.0, 1000.0])}
+    if R.random() < 0.4:
+        # a relative unit converted with the full context supplied (every metric distinct, so that a swapped argument shows)
+        case["u"] = R.choice(["em", "ex", "%", "vw", "vh", "vmin", "vmax"])
+        case["full"] = {"relative_length": R.choice([300.0, 77.5]), "font_size": R.choice([12.0, 16.0, 9.5]), "font_height": R.choice([7.0, 5.5, 11.0]),
+                        "viewbox": R.choice([[0, 0, 200, 50], [0, 0, 50, 200], [10, -5, 123.5, 77.25]])}
+    return case
 
 
 def _ctx_kwargs(S, ctx):
@@ -293,10 +299,15 @@ def _run_conversion(S, case, ctx):
     a, u, ppi = case["a"], case["u"], case["ppi"]
     ctx.mon("conversion")
     Lg = S.Length("%r%s" % (a, u))
-    want = L.resolve(a, u, {"ppi": ppi})
+    full = dict(case.get("full") or {}, ppi=ppi)
+    want = L.resolve(a, u, _ref_ctx(full))
+    if want is None or isinstance(want, tuple):
+        ctx.undecided("conversion-reference-symbolic")
+        return
+    kw = _ctx_kwargs(S, full)
     for name, per_inch in (("to_mm", F(254, 10)), ("to_cm", F(254, 100)), ("to_inch", F(1))):
         try:
-            r = getattr(Lg, name)(ppi=ppi)
+            r = getattr(Lg, name)(**kw)
         except Exception as e:
             ctx.violation("conversion-raises/%s/%s" % (type(e).__name__, name), "Length('%r%s').%s(ppi=%r): %r" % (a, u, name, ppi, e), monitor="conversion")
             continue
